@@ -1,12 +1,14 @@
 import os, sys
 sys.path.insert(0, os.path.join(os.environ.get('VERIF_ROOT', '/verif'), 'engine', 'rt'))
 import ptgfam, ptgrun
+sys.path.insert(0, os.path.join(os.environ.get('VERIF_ROOT', '/verif'), 'harness', 'C02'))
+import il          # instruction-level leg shared with C02 (harness/C02/il.py, c02_il.c)
 
 META = dict(
-    engine='rt',
-    technique='bounded-exhaustive program family (PTG-IR -> jdf -> freshly built ptgpp) x exhaustive task-level schedule enumeration (harness scheduler + in-process DFS) x exhaustive configuration box (11 schedulers x threads x 2 dependency back-ends x start-up chunking), reference interpreter as oracle',
-    level_text='For every program of an enumerated PTG-IR family (execution-space shapes: steps, bounds depending on outer parameters, empty ranges, derived locals, local indices, inline-C bounds, negative bounds; start-up condition grid over 8x5 input-dependency forms; dependency shapes) the real runtime executes exactly the reference instance set, each instance once, and terminates: under EVERY task-level execution order for the small variants (deviation-bounded for the larger ones) and, free-running, under every scheduler module x thread count x dependency back-end x start-up chunking of the stated box.',
-    level_note='Task bodies and runtime actions are atomic in the schedule enumeration (instruction-level races of the primitives are decided by the E1 checks C07/C10/C25...); the free-running leg enumerates configurations, not schedules. One process, shared memory (hk-shm). Negative-step ranges are a recorded finding (C01-negative-step-execution-space); the index-array back-end with non-range parameters is reported separately.',
+    engine='rt+cosched',
+    technique='bounded-exhaustive program family (PTG-IR -> jdf -> freshly built ptgpp) x exhaustive task-level schedule enumeration (harness scheduler + in-process DFS) x exhaustive configuration box (11 schedulers x threads x 2 dependency back-ends x start-up chunking), reference interpreter as oracle; plus (legs il-*) preemption-bounded exhaustive INSTRUCTION-level schedule enumeration (cosched) of two execution streams running real generated PTG taskpools',
+    level_text='For every program of an enumerated PTG-IR family (execution-space shapes: steps, bounds depending on outer parameters, empty ranges, derived locals, local indices, inline-C bounds, negative bounds; start-up condition grid over 8x5 input-dependency forms; dependency shapes) the real runtime executes exactly the reference instance set, each instance once, and terminates: under EVERY task-level execution order for the small variants (deviation-bounded for the larger ones) and, free-running, under every scheduler module x thread count x dependency back-end x start-up chunking of the stated box. Legs il-*: five 3-4 task programs x 2 back-ends, every interleaving of stream 0 (add_taskpool + context_wait) and stream 1 (worker loop) with <= 1 preemption (thorough <= 2, <= 3 for the smallest) at instrumented accesses to the taskpool counters, dependency tables, repositories, scheduler queue: every reference instance exactly once, none other, termination callback exactly once and after the last body, nothing left in the queue, counters at zero.',
+    level_note='Task bodies and runtime actions are atomic in the schedule enumeration (instruction-level races of the primitives are decided by the E1 checks C07/C10/C25... and, on whole small taskpools with 2 streams, by the il legs); the free-running leg enumerates configurations, not schedules. One process, shared memory (hk-shm). Negative-step ranges are a recorded finding (C01-negative-step-execution-space); the index-array back-end with non-range parameters is reported separately.',
 )
 RULE = ("programs: explicit enumeration (ptgfam.c01_family), every variant validated by the reference interpreter; "
         "hsched leg: DFS over every choice of the next ready task (all linear extensions incl. start-up tasks) for variants with <= K instances, "
@@ -16,7 +18,7 @@ RULE = ("programs: explicit enumeration (ptgfam.c01_family), every variant valid
 ORACLE = 1
 
 
-def check(ctx):
+def task_level_legs(ctx):
     quick = ctx.tier == 'quick'
     progs, refused = ptgfam.c01_family(ctx.tier)
     neg, _ = ptgfam.negstep_family()
@@ -39,7 +41,24 @@ def check(ctx):
     R.run_jobs(kn, 'recorded-findings (negative steps, index-array non-range parameters)', stop_on_violation=False)
     ctx.notes += R.notes
     R.cleanup()
-    return ctx.finish(RULE, ['task bodies and runtime actions atomic at the task level (primitives: E1 checks)',
+
+
+def check(ctx):
+    import time
+    from concurrent.futures import ThreadPoolExecutor
+    # the il executables (ptgpp + instrumented cc) are built in the background while the task-level legs run
+    pool = ThreadPoolExecutor(1)
+    t2 = time.time()
+    fut = pool.submit(il.build, ctx)
+    if not os.environ.get('VERIF_IL_ONLY'):          # debugging aid: VERIF_IL_ONLY=1 runs the il legs alone (no evidence written)
+        task_level_legs(ctx)
+    else:
+        os.environ.setdefault('VERIF_NO_EVIDENCE', '1')
+    B = fut.result()
+    ctx.notes.append('il legs: executables (ptgpp + instrumented cc, 5 programs x 2 back-ends) ready %.1fs after the start of the check' % (time.time() - t2))
+    if not ctx.violations:
+        il.run(ctx, B, c01_only=True)
+    return ctx.finish(RULE + '; ' + il.RULE, il.ASSUME + ['task bodies and runtime actions atomic at the task level (primitives: E1 checks)',
                              'single process, shared memory; placement always rank 0',
                              'reference interpreter (engine/rt/ptgir.py) defines the valid-program semantics'])
 
@@ -50,4 +69,6 @@ def family_all():
 
 
 def replay(ctx, path, obj):
+    if obj.get('engine') == 'cosched':
+        return il.replay(ctx, path, obj)
     return ptgrun.replay(ctx, path, obj, family_all())
